@@ -451,7 +451,10 @@ func (w *Writer) ReadFrom(src io.Reader) (n int64, err error) {
 			nr++
 		}
 		if nr == maxEmptyReads {
-			return n, io.ErrNoProgress
+			// NOTE: do not return here: bytes accepted so far make the
+			// message started (see below).
+			err = io.ErrNoProgress
+			break
 		}
 
 		w.n += nn
